@@ -408,7 +408,7 @@ def e2e_configs(tier):
              writes_per_chunk=2, min_write_sz=500, spill_sz=500, band_chunk=1, scheduler="threads:3"),
         dict(base, H=15, W=17, dtype="float32", chunks=(20, 9), blocksize=[(32, 16), 32, 16], compression="none",
              writes_per_chunk=2, min_write_sz=64, spill_sz=256),
-        # irregular source chunking whose largest chunk equals the tile size (chunksize == tile, no rechunk before be07dac)
+        # irregular source chunking whose largest chunk equals the tile size (chunksize == tile, no rechunk before dec5ed6)
         dict(base, H=100, W=72, chunks=((32, 18, 32, 18), (32, 32, 8)), blocksize=[32, 16]),
         dict(base, H=64, W=64, axis="SYX", S=2, dtype="uint8", chunks=((32, 16, 16), (16, 32, 16)), blocksize=[32], band_chunk=1),
         dict(base, H=48, W=80, axis="YXS", S=3, dtype="uint8", chunks=((16, 32), (32, 16, 32)), blocksize=[(32, 32), 16],
